@@ -585,6 +585,13 @@ def instances(tier):
                 continue
             add("PartialUnaryStatePreparation", {"n": 3, "idx": list(idx), "c": "cplx", "ww": 1}, SEQ)
             add("SumOfSlatersPrep", {"n": 3, "idx": list(idx), "c": "cplx"}, SEQ)
+    # SumOfSlaters through the COMPRESSING encoding (7 determinants forming a single-bit-flip tree over 6 wires; see check_sos_encoding)
+    trees = [([0, 1, 2, 3, 4], 0, [5, 4, 3, 2, 1, 0]), ([0, 0, 0, 0, 0], 21, [0, 1, 2, 3, 4, 5])]
+    if thorough:
+        trees += [([3, 3, 1, 1, 0], 0, [2, 0, 4, 1, 5, 3]), ([6, 5, 4, 3, 2], 63, [5, 4, 3, 2, 1, 0]), ([0, 6, 0, 6, 0], 0, [1, 2, 3, 4, 5, 0]),
+                  ([2, 2, 5, 5, 2], 42, [0, 1, 2, 3, 4, 5])]
+    for pr, root, perm in trees:
+        add("SumOfSlatersPrep", {"n": 6, "idx": _tree_indices(pr, root, perm), "c": "cplx", "static": 1}, SEQ)
     # MPSPrep
     for n in range(2, 5 if thorough else 4):
         tg = [d for d in dense_targets(min(n, 3), tier) if d["kind"] == "generic" or (d["kind"] == "pair" and (thorough or d["ph"] in ("i", "g1")))
@@ -632,6 +639,89 @@ def routes_for(t, a):
         rs.append("rule:" + name)
     return rs
 
+
+
+# ================================================================================================= SumOfSlaters: classical encoding core
+# select_sos_rows keeps a row only if two columns differ in that row alone, so r kept rows need a forest of r "single-bit" edges between
+# the D columns (r <= D-1).  The compressing branch of compute_sos_encoding (r > 2*ceil(log2 D) - 1) is therefore first reached with D = 7
+# determinants that form a TREE of single-bit flips over 6 distinct bits (t = 1, _find_single_w) and D = 8 over 7 bits (t = 2, _find_w):
+# none of the 1-3 wire instances above reaches it.  This family enumerates those index sets exhaustively at the classical seam.
+def _tree_indices(prufer, root, perm):
+    """Index set = node values of the labelled tree given by a Pruefer sequence; edge k (in decoding order) flips bit perm[k]."""
+    n = len(prufer) + 2
+    deg = [1] * n
+    for x in prufer:
+        deg[x] += 1
+    edges = []
+    pr = list(prufer)
+    for x in pr:
+        leaf = min(i for i in range(n) if deg[i] == 1)
+        edges.append((leaf, x))
+        deg[leaf] -= 1
+        deg[x] -= 1
+    u, v = [i for i in range(n) if deg[i] == 1]
+    edges.append((u, v))
+    adj = {i: [] for i in range(n)}
+    for k, (a, b) in enumerate(edges):
+        adj[a].append((b, perm[k]))
+        adj[b].append((a, perm[k]))
+    val, todo = {0: root}, [0]
+    while todo:
+        a = todo.pop()
+        for b, bit in adj[a]:
+            if b not in val:
+                val[b] = val[a] ^ (1 << bit)
+                todo.append(b)
+    return [val[i] for i in range(n)]
+
+
+def check_sos_encoding(spec):
+    import pennylane as qp
+    from pennylane.templates.state_preparations.sum_of_slaters import compute_sos_encoding, select_sos_rows
+
+    nbits = spec["nbits"]
+    idx = _tree_indices(spec["prufer"], spec["root"], spec["perm"])
+    D = len(idx)
+    bits = np.array([[(v >> (nbits - 1 - k)) & 1 for v in idx] for k in range(nbits)], dtype=int)
+    sel, sub = select_sos_rows(bits)
+    sub = np.asarray(sub)
+    r = sub.shape[0]
+    if len({tuple(col) for col in sub.T}) != D or not np.array_equal(sub, bits[list(sel)]):
+        return bad(f"SumOfSlaters:select_sos_rows:columns-collide:D={D}", [list(sel), sub.tolist()], "distinct columns, rows = bits[selectors]", indices=idx)
+    U, b = compute_sos_encoding(sub)
+    U, b = np.asarray(U), np.asarray(b)
+    d = int(math.ceil(math.log2(D)))
+    m = min(r, 2 * d - 1)
+    tag = f"D={D}:r={r}:t={max(r - (2 * d - 1), 0)}"
+    if b.shape != (m, D) or U.shape != (m, r):
+        return bad(f"SumOfSlaters:encoding:shape:{tag}", [list(U.shape), list(b.shape)], [[m, r], [m, D]], indices=idx)
+    if not np.array_equal((U @ sub) % 2, b % 2):
+        return bad(f"SumOfSlaters:encoding:b-is-not-U-bits:{tag}", b.tolist(), ((U @ sub) % 2).tolist(), indices=idx)
+    if len({tuple(col) for col in (b % 2).T}) != D:
+        return bad(f"SumOfSlaters:encoding:identification-codes-collide:{tag}", (b % 2).tolist(), "D distinct columns", indices=idx, U=U.tolist())
+    sizes = qp.SumOfSlatersPrep.required_register_sizes(tuple(idx), nbits)
+    want_id = m if r > m else 0  # documented: the identity encoding re-uses the system wires as identification register
+    if sizes["identification_wires"] != want_id or sizes["enumeration_wires"] != d:
+        return bad(f"SumOfSlaters:register-sizes:{tag}", sizes, {"identification_wires": want_id, "enumeration_wires": d}, indices=idx)
+    return ok(outcome=[r, m, bool(np.array_equal(U, np.eye(m, r, dtype=int)))], nontrivial=r > m)
+
+
+def sos_encoding_specs(tier):
+    thorough = tier == "thorough"
+    out = []
+    perms6 = [list(range(6)), list(range(5, -1, -1))] + ([[2, 0, 4, 1, 5, 3], [1, 2, 3, 4, 5, 0]] if thorough else [])
+    for root in ((0,) if not thorough else (0, 21, 63)):
+        for pr in itertools.product(range(7), repeat=5):                    # all 16807 labelled trees on 7 determinants
+            if not thorough and (sum(pr) + pr[0]) % 4:
+                continue                                                     # quick: a fixed quarter of the trees
+            for perm in perms6:
+                out.append({"nbits": 6, "prufer": list(pr), "root": root, "perm": perm})
+    for pr in itertools.product(range(3 if not thorough else 4), repeat=6):  # trees on 8 determinants over 7 bits (t = 2)
+        for perm in ([list(range(7)), list(range(6, -1, -1))] if thorough else [list(range(6, -1, -1))]):
+            out.append({"nbits": 7, "prufer": list(pr), "root": 0, "perm": perm})
+    for pr in itertools.product(range(5), repeat=3):                         # small trees (identity branch), all of them
+        out.append({"nbits": 4, "prufer": list(pr), "root": 5, "perm": [3, 1, 0, 2]})
+    return out
 
 # ================================================================================================= evaluation
 HARNESS = (ImportError, MemoryError, OSError, KeyboardInterrupt, SystemExit)
@@ -771,8 +861,10 @@ def run(ctx):
     if ctx.only:
         specs = [s for s in specs if s["t"] == ctx.only]
     ctx.enumerate(specs, fn="check", chunk=8, axis="instance-route")
+    if not ctx.only or ctx.only == "sos-encoding":
+        ctx.enumerate(sos_encoding_specs(ctx.tier), fn="check_sos_encoding", chunk=256, axis="sum-of-slaters-encoding")
     ctx.coverage["alphabet"] = {"templates": sorted(TEMPLATES), "target_kinds": ["basis", "signs", "phases4", "support", "pair", "generic"],
                                 "coefficients": COEFFS, "layouts": LAYOUTS, "routes": ["device", "dec", "rule:<every applicable rule>"]}
-    ctx.coverage["bound"] = {"wires": "1-3 (thorough: 4 for dense / MPS / bitstrings, CosineWindow 5)", "sparse_entries": "1-3 (+4 on 3 wires)",
+    ctx.coverage["bound"] = {"wires": "1-3 (thorough: 4 for dense / MPS / bitstrings, CosineWindow 5)", "sparse_entries": "1-3 (+4 on 3 wires; SumOfSlaters: 7 on 6 wires through the compressing encoding, and every 7-/8-determinant flip tree at the classical encoding seam)",
                              "mps_bond_dimension": "<= 2 (4 thorough)", "qrom_precision_bits": "1-3", "instances": len(inst)}
     ctx.coverage["specs_per_template"] = per_t
